@@ -59,6 +59,7 @@ public:
 
     void listComponentIdsAndItems(const ComponentPtr &component, ItemList &idList);
     ItemList listIdsAndItems(const ModelPtr &model);
+    static bool importSourceListed(const ItemList &idList, const std::string &id, const ImportSourcePtr &importSource);
 
     void update();
     void buildIdList();
@@ -155,6 +156,24 @@ inline bool equals(const std::weak_ptr<T> &t, const std::weak_ptr<U> &u)
     return !t.owner_before(u) && !u.owner_before(t);
 }
 
+/**
+ * @brief Test whether the given import source has already been recorded with the given identifier.
+ *
+ * An import source is shared by every units and component imported through it, so the
+ * same object is reached once per imported entity; it carries its identifier only once.
+ */
+bool Annotator::AnnotatorImpl::importSourceListed(const ItemList &idList, const std::string &id, const ImportSourcePtr &importSource)
+{
+    auto range = idList.equal_range(id);
+    for (auto it = range.first; it != range.second; ++it) {
+        if ((it->second->type() == CellmlElementType::IMPORT)
+            && (std::any_cast<ImportSourceWeakPtr>(it->second->mPimpl->mItem).lock() == importSource)) {
+            return true;
+        }
+    }
+    return false;
+}
+
 void Annotator::AnnotatorImpl::listComponentIdsAndItems(const ComponentPtr &component, ItemList &idList)
 {
     std::string id = component->id();
@@ -167,7 +186,7 @@ void Annotator::AnnotatorImpl::listComponentIdsAndItems(const ComponentPtr &comp
     ImportSourcePtr importSource = component->importSource();
     if (importSource != nullptr) {
         id = importSource->id();
-        if (!id.empty()) {
+        if (!id.empty() && !importSourceListed(idList, id, importSource)) {
             auto entry = AnyCellmlElement::AnyCellmlElementImpl::create();
             entry->mPimpl->setImportSource(importSource);
             idList.insert(std::make_pair(id, convertToWeak(entry)));
@@ -317,7 +336,7 @@ ItemList Annotator::AnnotatorImpl::listIdsAndItems(const ModelPtr &model)
         if (units->isImport()) {
             ImportSourcePtr importSource = units->importSource();
             id = importSource->id();
-            if (!id.empty()) {
+            if (!id.empty() && !importSourceListed(idList, id, importSource)) {
                 auto entry = AnyCellmlElement::AnyCellmlElementImpl::create();
                 entry->mPimpl->setImportSource(importSource);
                 idList.insert(std::make_pair(id, convertToWeak(entry)));
